@@ -25,6 +25,10 @@ func (s siteInfo) String() string {
 
 // xl translates the functions of one type-checked package.
 type xl struct {
+	// acceptedOut collects the size-dependent sites accepted without a hazard (may be nil)
+	acceptedOut *[]acceptedSite
+	// mayNil: may-return-nil summaries of the functions in scope (maynil.go), by FullName
+	mayNil map[string]map[int]bool
 	// ctorMaps: map-typed struct fields that every composite literal of their struct in the
 	// package initialises with make / a map literal, that are never assigned anything else
 	// and whose struct is never created as a zero value in the package (see ctorMapFields)
@@ -55,6 +59,9 @@ type fn struct {
 	oks    map[*types.Var]okInfo
 	ranges []rangeCtx
 	bounds []boundCtx
+	// isNilable: tracked pointer / interface variables that receive a result of a function whose
+	// summary says "may be nil together with a nil error" (kinds nil / ptr, like isPtr)
+	isNilable map[*types.Var]bool
 	// isLen: tracked variables of slice / string type; their "kind" is the length class
 	// min(len, 7) (kind number k = length k for k <= 6, kind 7 = length >= 7)
 	isLen  map[*types.Var]bool
@@ -65,6 +72,8 @@ type fn struct {
 	// may exit and every statement stays reachable in the skeleton
 	flowInsensitive bool
 	decl            *declInfo
+	body            *ast.BlockStmt
+	accepted        []acceptedSite
 }
 
 // declInfo: facts about one top-level function that its literals may rely on.
@@ -147,6 +156,10 @@ func (f *fn) newSite(n ast.Node, kind, desc string) int {
 // hz is a hazard at n unless the allow list covers (function, kind, desc).
 func (f *fn) hz(n ast.Node, kind, desc string) *Stmt {
 	if f.allow.covers(f.name, kind, desc) {
+		switch kind {
+		case "make", "index", "slice", "dstsize":
+			f.accepted = append(f.accepted, acceptedSite{Fn: f.name, Kind: kind + "(allow)", Expr: desc})
+		}
 		return skip()
 	}
 	return hazard(f.newSite(n, kind, desc))
@@ -206,6 +219,8 @@ func (f *fn) collect(ftype *ast.FuncType, recv *ast.FieldList, body *ast.BlockSt
 	f.isPtr = map[*types.Var]bool{}
 	bad := map[*types.Var]bool{}
 	f.isLen = map[*types.Var]bool{}
+	f.isNilable = map[*types.Var]bool{}
+	var nilCands []*types.Var
 	var cands, lenCands []*types.Var
 	lenUsed := map[*types.Var]bool{} // appears as len(v)
 	add := func(id *ast.Ident) {
@@ -259,6 +274,21 @@ func (f *fn) collect(ftype *ast.FuncType, recv *ast.FieldList, body *ast.BlockSt
 						bad[v] = true
 					}
 				}
+			case *ast.AssignStmt:
+				// x, …, err := f(…) with f's summary "result k may be nil with a nil error"
+				if len(m.Rhs) == 1 {
+					if call, ok := ast.Unparen(m.Rhs[0]).(*ast.CallExpr); ok {
+						if g := calleeOf(f.l.Info, call); g != nil {
+							for k := range f.mayNil[g.FullName()] {
+								if k < len(m.Lhs) {
+									if v := f.varOf(m.Lhs[k]); v != nil && isNilableType(v.Type()) && !isTokenType(v.Type()) && !isStartPtr(v.Type()) {
+										nilCands = append(nilCands, v)
+									}
+								}
+							}
+						}
+					}
+				}
 			case *ast.CallExpr:
 				if id, ok := m.Fun.(*ast.Ident); ok && id.Name == "len" && len(m.Args) == 1 {
 					if _, isB := f.l.Info.Uses[id].(*types.Builtin); isB {
@@ -296,6 +326,21 @@ func (f *fn) collect(ftype *ast.FuncType, recv *ast.FieldList, body *ast.BlockSt
 		}
 		f.vars[v] = len(f.vars)
 		f.isPtr[v] = isStartPtr(v.Type())
+	}
+	for _, v := range nilCands {
+		if bad[v] {
+			continue
+		}
+		// only locals of this function (declared in it)
+		if v.Parent() == nil || v.Pkg() == nil || v.Parent() == v.Pkg().Scope() || v.IsField() {
+			continue
+		}
+		if _, dup := f.vars[v]; dup {
+			continue
+		}
+		f.vars[v] = len(f.vars)
+		f.isPtr[v] = true
+		f.isNilable[v] = true
 	}
 	for _, v := range lenCands {
 		if bad[v] || !lenUsed[v] {
@@ -399,6 +444,12 @@ func (f *fn) eff(e ast.Expr) *Stmt {
 		return f.eff(e.X)
 	case *ast.SelectorExpr:
 		if sel, ok := f.l.Info.Selections[e]; ok {
+			if xv := f.varOf(e.X); xv != nil && f.isNilable[xv] {
+				if f.allow.covers(f.name, "nilresult", f.str(e.X)) {
+					return skip()
+				}
+				return require(f.vars[xv], kPtr, f.newSite(e, "nilresult", f.str(e)))
+			}
 			if isStartPtr(f.typeOf(e.X)) {
 				_ = sel
 				return f.derefOf(e.X, e, "deref")
@@ -604,6 +655,11 @@ func (f *fn) call(e *ast.CallExpr) *Stmt {
 		}
 		r = seq(r, f.eff(a))
 	}
+	if g := calleeOf(f.l.Info, e); g != nil && g.Pkg() != nil {
+		if hz := f.dstSize(e, g); hz != nil {
+			r = seq(r, hz)
+		}
+	}
 	if strings.HasPrefix(name, "Must") && len(name) > 4 && name[4] >= 'A' && name[4] <= 'Z' {
 		r = seq(r, f.hz(e, "must", f.str(e.Fun)))
 	}
@@ -616,10 +672,17 @@ func (f *fn) builtin(name string, e *ast.CallExpr) *Stmt {
 	case "panic":
 		return seq(r, f.hz(e, "panic", "panic(…)"))
 	case "make":
+		constant := true
 		for _, a := range e.Args[1:] {
 			if !f.nonNegative(a) {
 				return seq(r, f.hz(e, "make", f.str(e)))
 			}
+			if _, isC := f.intConst(a); !isC {
+				constant = false
+			}
+		}
+		if !constant {
+			f.accepted = append(f.accepted, acceptedSite{Fn: f.name, Kind: "make", Expr: f.str(e)})
 		}
 	}
 	return r
@@ -1470,6 +1533,7 @@ func (x *xl) translateFunc(name string, di *declInfo, ftype *ast.FuncType, recv 
 	for k := range di.madeMaps {
 		f.madeMaps[k] = true
 	}
+	f.body = body
 	f.flowInsensitive = unstructured(body)
 	f.collect(ftype, recv, body)
 	entry := skip()
@@ -1502,6 +1566,9 @@ func (x *xl) translateFunc(name string, di *declInfo, ftype *ast.FuncType, recv 
 	ptrParams(ftype.Params, kPtr)
 	ptrParams(ftype.Results, kNil)
 	s := seq(entry, f.stmts(body.List))
+	if x.acceptedOut != nil {
+		*x.acceptedOut = append(*x.acceptedOut, f.accepted...)
+	}
 	return simplify(s), len(f.vars)
 }
 
@@ -1724,4 +1791,68 @@ func ctorMapFields(l *loaded) map[*types.Var]bool {
 		}
 	}
 	return res
+}
+
+// dstSize: standard-library functions that index their destination up to a size derived from
+// the source and fault when it is shorter (base64 / hex Decode and Encode, binary.PutUintN /
+// UintN).  Accepted without a hazard only in the form
+//
+//	dst := make([]byte, enc.DecodedLen(len(src)))   // resp. EncodedLen
+//	… enc.Decode(dst, src)
+//
+// with dst a local assigned exactly once in the function and the same src expression.
+func (f *fn) dstSize(e *ast.CallExpr, g *types.Func) *Stmt {
+	pkg, name := g.Pkg().Path(), g.Name()
+	sizeFn := ""
+	switch {
+	case (pkg == "encoding/base64" || pkg == "encoding/hex" || pkg == "encoding/base32") && name == "Decode":
+		sizeFn = "DecodedLen"
+	case (pkg == "encoding/base64" || pkg == "encoding/hex" || pkg == "encoding/base32") && name == "Encode":
+		sizeFn = "EncodedLen"
+	case pkg == "encoding/binary" && (strings.HasPrefix(name, "PutUint") || strings.HasPrefix(name, "Uint")):
+		return f.hz(e, "dstsize", f.str(e))
+	default:
+		return nil
+	}
+	if len(e.Args) != 2 {
+		return nil
+	}
+	dst, src := f.varOf(e.Args[0]), f.str(e.Args[1])
+	if dst != nil && f.body != nil {
+		assigns, okInit := 0, false
+		ast.Inspect(f.body, func(n ast.Node) bool {
+			as, ok := n.(*ast.AssignStmt)
+			if !ok {
+				return true
+			}
+			for i, lh := range as.Lhs {
+				if f.varOf(lh) != dst {
+					continue
+				}
+				assigns++
+				if len(as.Lhs) == len(as.Rhs) {
+					if mk, ok := ast.Unparen(as.Rhs[i]).(*ast.CallExpr); ok && f.str(mk.Fun) == "make" && len(mk.Args) == 2 {
+						if sz, ok := ast.Unparen(mk.Args[1]).(*ast.CallExpr); ok && len(sz.Args) == 1 {
+							if sel, ok := sz.Fun.(*ast.SelectorExpr); ok && sel.Sel.Name == sizeFn && f.str(sz.Args[0]) == "len("+src+")" {
+								okInit = true
+							}
+						}
+					}
+				}
+			}
+			return true
+		})
+		if assigns == 1 && okInit {
+			f.accepted = append(f.accepted, acceptedSite{Fn: f.name, Kind: "dstsize", Expr: f.str(e)})
+			return nil
+		}
+	}
+	return f.hz(e, "dstsize", f.str(e))
+}
+
+// acceptedSite: a partial operation the translator (or the allow list) accepted although its
+// safety depends on a size / index expression.  The expressions are regenerated and pinned in
+// Props/C09.lean: editing one resurfaces the site for review.
+type acceptedSite struct {
+	Fn, Kind, Expr string
 }
